@@ -502,6 +502,112 @@ fn isolation_through_include_case(cx: &mut Cx, r: &mut Rng) {
     }
 }
 
+/// A call's result depends on that call's own arguments and body only: a template making several calls in a row — the same
+/// component again and again with arguments that are equal but not identical (1 and 1.0, the same text once marked safe and
+/// once not, the same value reached through different variables or representations), from a loop over such values, with and
+/// without bodies — renders exactly the concatenation of what each call renders when it is the only one in its template,
+/// and fails if any of them fails alone. Autoescaping is on, so a safe mark that travels (or fails to travel) with an
+/// argument shows in the text.
+fn sequence_case(cx: &mut Cx, r: &mut Rng) {
+    const NS: &[&str] = &["1", "1.0", "2", "2.0", "i1", "f1", "u1", "w1", "\"1\"", "true", "[1]", "[1.0]", "[i1]", "{\"k\": 1}", "{\"k\": 1.0}", "i1 + 0", "f1 * 1"];
+    const SS: &[&str] = &["raw", "raw | safe", "raw2", "\"<l>\"", "\"<l>\" | safe", "raw ~ \"\"", "raw2 | safe"];
+    let typ = *r.pick(&["", ": integer", ": float", ": number", ": array", ": map", ""]);
+    let comps = format!("{{% component sq(n{typ}, s = \"d\") %}}<{{% if n is integer %}}i{{% elif n is float %}}f{{% else %}}o{{% endif %}}{{{{ n }}}}|{{{{ s }}}}|{{{{ body | default(value=\"-\") }}}}>{{% endcomponent %}}{{% component sq2(n{typ}, s = \"d\") %}}<{{{{ n }}}}|{{{{ s }}}}|{{{{ body | default(value=\"-\") }}}}>{{% endcomponent %}}");
+    let ncalls = 2 + r.below(4);
+    // mostly a narrow pool, so that neighbours are equal-but-not-identical often
+    let narrow_n: Vec<&str> = (0..2 + r.below(2)).map(|_| *r.pick(NS)).collect();
+    let narrow_s: Vec<&str> = (0..2).map(|_| *r.pick(SS)).collect();
+    let mut calls: Vec<String> = Vec::new();
+    let in_loop = r.chance(1, 4);
+    if in_loop {
+        let s = *r.pick(&narrow_s);
+        let cmp = if r.chance(1, 5) { "sq2" } else { "sq" };
+        for i in 0..ncalls {
+            calls.push(format!("{{{{ <{cmp} n={{xs[{i}]}} s={{{s}}} /> }}}}"));
+        }
+        let xs: Vec<&str> = (0..ncalls).map(|_| *r.pick(&narrow_n)).collect();
+        let seq = format!("{{% for x in xs %}}{{{{ <{cmp} n={{x}} s={{{s}}} /> }}}}{{% endfor %}}");
+        return sequence_check(cx, comps, calls, seq, format!("[{}]", xs.join(", ")), "loop");
+    }
+    for _ in 0..ncalls {
+        let n = if r.chance(4, 5) { *r.pick(&narrow_n) } else { *r.pick(NS) };
+        let s = if r.chance(4, 5) { *r.pick(&narrow_s) } else { *r.pick(SS) };
+        let cmp = if r.chance(1, 6) { "sq2" } else { "sq" };
+        calls.push(match r.below(4) {
+            0 => format!("{{% <{cmp} n={{ {n} }} s={{ {s} }}> %}}B{{{{ {} }}}}{{% </{cmp}> %}}", *r.pick(&["raw", "raw | safe"])),
+            1 => format!("{{{{ <{cmp} n={{ {n} }} /> }}}}"),
+            _ => format!("{{{{ <{cmp} n={{ {n} }} s={{ {s} }} /> }}}}"),
+        });
+    }
+    let seq = calls.concat();
+    sequence_check(cx, comps, calls, seq, "[]".to_string(), "inline")
+}
+
+fn sequence_check(cx: &mut Cx, comps: String, calls: Vec<String>, seq: String, xs: String, shape: &str) {
+    let pre = format!("{{% set xs = {xs} %}}");
+    let mut tpls: Vec<(String, String)> = vec![("c.html".into(), comps), ("t.html".into(), format!("{pre}{seq}"))];
+    for (i, c) in calls.iter().enumerate() {
+        tpls.push((format!("k{i}.html"), format!("{pre}{c}")));
+    }
+    let replay = json!({"templates": tpls});
+    cx.eval();
+    let built = guard(|| {
+        let mut t = Tera::default();
+        t.add_raw_templates(tpls.clone()).map(|_| t).map_err(|e| e.to_string())
+    });
+    let t = match built {
+        Ok(Ok(t)) => t,
+        Ok(Err(e)) => {
+            cx.violation("C05/valid-component-program-rejected/sequence", format!("registration failed: {}", clip(&e, 300)), replay);
+            return;
+        }
+        Err(p) => {
+            cx.violation(&format!("C05/panic/{}", panic_site(&p)), format!("registration panicked: {p}"), replay);
+            return;
+        }
+    };
+    let mut ctx = Context::new();
+    ctx.insert("raw", "<r&>");
+    ctx.insert("raw2", "<r&>");
+    ctx.insert("i1", &1i64);
+    ctx.insert("f1", &1.0f64);
+    ctx.insert("u1", &1u64);
+    ctx.insert("w1", &1i128);
+    let mut alone: Vec<Result<String, String>> = Vec::new();
+    for i in 0..calls.len() {
+        cx.eval();
+        match guard(|| t.render(&format!("k{i}.html"), &ctx).map_err(|e| e.to_string())) {
+            Ok(x) => alone.push(x),
+            Err(p) => {
+                cx.violation(&format!("C05/panic/{}", panic_site(&p)), format!("render panicked: {p}"), replay);
+                return;
+            }
+        }
+    }
+    cx.eval();
+    let got = match guard(|| t.render("t.html", &ctx).map_err(|e| e.to_string())) {
+        Ok(g) => g,
+        Err(p) => {
+            cx.violation(&format!("C05/panic/{}", panic_site(&p)), format!("render panicked: {p}"), replay);
+            return;
+        }
+    };
+    cx.count("call_sequences_compared", 1);
+    let any_err = alone.iter().any(|a| a.is_err());
+    cx.cell(format!("sequence|{shape}|calls{}|{}", calls.len(), if any_err { "one-fails" } else { "all-render" }));
+    match (&got, any_err) {
+        (Err(_), true) => {}
+        (Ok(o), true) => cx.violation("C05/call-sequence/accepted-although-one-call-fails-alone", format!("the sequence rendered {:?} although a call in it fails when rendered alone: {:?}", clip(o, 300), alone), replay),
+        (Err(e), false) => cx.violation("C05/call-sequence/fails-although-every-call-renders-alone", format!("the sequence failed: {}", clip(e, 300)), replay),
+        (Ok(o), false) => {
+            let exp: String = alone.iter().map(|a| a.clone().unwrap()).collect();
+            if *o != exp {
+                cx.violation("C05/call-sequence/differs-from-the-calls-rendered-alone", format!("the sequence rendered {:?}, the calls one by one {:?}", clip(o, 400), clip(&exp, 400)), replay);
+            }
+        }
+    }
+}
+
 fn recursion_case(cx: &mut Cx, r: &mut Rng) {
     let shapes: [(&str, &str, bool); 7] = [
         ("self", "{% component r(n) %}{{ <r n={n + 1} /> }}{% endcomponent %}{{ <r n={0} /> }}", false),
@@ -564,6 +670,10 @@ pub fn run(cx: &mut Cx) {
             19 => {
                 cx.begin_case(case, "recursion");
                 recursion_case(cx, &mut r);
+            }
+            15 | 14 => {
+                cx.begin_case(case, "call-sequence");
+                sequence_case(cx, &mut r);
             }
             16 => {
                 cx.begin_case(case, "isolation-through-include");
